@@ -101,6 +101,7 @@ type Cx struct {
 	scopePos token.Pos
 	guard    []string
 	loopIn   *State
+	rng      *ast.RangeStmt // range statement of the loop whose invariant is being evaluated
 	noOb     bool // do not emit safety obligations (contract expressions)
 	overflow bool
 	what     string
@@ -579,7 +580,7 @@ func (fv *FV) enterLoop(h *Block, in *State) *State {
 	}
 	entry := in.clone()
 	fv.loopIn[h] = entry
-	cx := &Cx{st: in, old: fv.entry, contract: true, scopePos: h.ScopePos, noOb: true, loopIn: entry, env: map[string]TV{}}
+	cx := &Cx{st: in, old: fv.entry, contract: true, scopePos: h.ScopePos, noOb: true, loopIn: entry, env: map[string]TV{}, rng: headRange(h)}
 	for _, c := range invs {
 		for _, cj := range fv.conjuncts(c.Expr, cx) {
 			if ob := fv.oblige(in, "inv.init", fmt.Sprintf("inv.init[%d][%d]", h.LoopOrd, fv.ordinal(fmt.Sprintf("inv.init.%d", h.LoopOrd))), cj.term, cj.text, h.Pos, nil); ob != nil {
@@ -627,7 +628,7 @@ func (fv *FV) enterLoop(h *Block, in *State) *State {
 	if len(heapCells) > 0 {
 		fv.heapFacts(st, heapCells)
 	}
-	cx2 := &Cx{st: st, old: fv.entry, contract: true, scopePos: h.ScopePos, noOb: true, loopIn: entry, env: map[string]TV{}}
+	cx2 := &Cx{st: st, old: fv.entry, contract: true, scopePos: h.ScopePos, noOb: true, loopIn: entry, env: map[string]TV{}, rng: headRange(h)}
 	for _, c := range invs {
 		for _, cj := range fv.conjuncts(c.Expr, cx2) {
 			fv.assume(st, cj.term)
@@ -673,6 +674,13 @@ func (fv *FV) runLoopBody(h *Block, st *State) {
 		}
 		fv.execBlock(b, s, edges, h.LoopBody)
 	}
+}
+
+func headRange(h *Block) *ast.RangeStmt {
+	if h.Cond != nil && h.Cond.Kind == CRangeHas {
+		return h.Cond.Range
+	}
+	return nil
 }
 
 func (fv *FV) loopInvariants(h *Block) []*Clause {
@@ -729,7 +737,7 @@ func (fv *FV) execBlock(b *Block, st *State, edges map[edgeKey]*State, region ma
 func (fv *FV) backEdge(from, h *Block, st *State) {
 	invs := fv.loopInvariants(h)
 	entry := fv.loopIn[h]
-	cx := &Cx{st: st, old: fv.entry, contract: true, scopePos: h.ScopePos, noOb: true, loopIn: entry, env: map[string]TV{}}
+	cx := &Cx{st: st, old: fv.entry, contract: true, scopePos: h.ScopePos, noOb: true, loopIn: entry, env: map[string]TV{}, rng: headRange(h)}
 	for _, c := range invs {
 		for _, cj := range fv.conjuncts(c.Expr, cx) {
 			if ob := fv.oblige(st, "inv.step", fmt.Sprintf("inv.step[%d][%d]", h.LoopOrd, fv.ordinal(fmt.Sprintf("inv.step.%d", h.LoopOrd))), cj.term, cj.text, from.Pos, nil); ob != nil {
@@ -855,6 +863,12 @@ func (fv *FV) checkFrame(st *State, pos token.Pos) {
 			continue
 		}
 		if strings.HasPrefix(cell, "$") {
+			continue
+		}
+		if _, ok := fv.u.ExtraCells[cell]; ok {
+			if !fv.modifiesVar(cell) {
+				fv.oblige(st, "assigns", fmt.Sprintf("assigns[%s]", cell), eq(cur, sym(cell+"@0")), "ghost variable written but not listed in modifies", pos, nil)
+			}
 			continue
 		}
 		// heap-like cell keyed by reference: H!T.f, G!T.f, E!sort, MD!/MV!
